@@ -49,6 +49,12 @@ pub fn scenario_rows() -> Vec<Tags> {
         def("t1", &[], vec![("tagOn", sym_list(&["a"]))]),
         def("mand", &[], vec![("mandatory", V::Marker)]),
         def("m2", &["mand", "d"], vec![]),
+        def("is", &["association"], vec![]),
+        def(
+            "plant",
+            &["entity"],
+            vec![("children", V::List(vec![V::dict(&[("pt", V::Marker)]), V::dict(&[("eq", V::Marker), ("b", V::Marker)])])), ("childrenFlatten", sym_list(&["a", "zz"]))],
+        ),
     ]
 }
 
@@ -65,6 +71,11 @@ pub enum Q {
     Implementation(&'static str),
     /// has_relationship(subject {xRef:@<first>}, rel, term, target) with refs chained r1->r2->r1
     HasRel(Option<&'static str>, Option<&'static str>),
+    Protos(&'static [&'static str]),
+    Is(&'static str),
+    TagOn(&'static str),
+    AllSubtypes(&'static str),
+    FitsWrappers(&'static str),
 }
 
 /// the 10-query core (first) followed by the rest of the alphabet
@@ -101,6 +112,12 @@ pub fn queries() -> Vec<Q> {
         Q::Implementation("m2"),
         Q::HasRel(None, None),
         Q::HasRel(Some("d"), None),
+        Q::Protos(&["plant", "d", "e2"]),
+        Q::Protos(&["m2"]),
+        Q::Is("d"),
+        Q::TagOn("t1"),
+        Q::AllSubtypes("a"),
+        Q::FitsWrappers("b-c"),
     ]
 }
 pub const CORE: usize = 10;
@@ -142,6 +159,19 @@ pub fn run_query(ns: &'static Namespace<'static>, q: &Q) -> String {
         }
         Q::Tags(s) => names(&ns.tags(&Symbol::from(*s))),
         Q::Implementation(s) => names(&ns.implementation(&Symbol::from(*s))),
+        Q::Protos(tags) => {
+            let d = marker_dict(tags);
+            let mut p: Vec<String> = ns.protos(&d).iter().map(|x| format!("{:?}", crate::model::v::from_lib(&Value::Dict(x.clone())))).collect();
+            p.sort();
+            p.join(";")
+        }
+        Q::Is(s) => names(&ns.is(&Symbol::from(*s))),
+        Q::TagOn(s) => names(&ns.tag_on(&Symbol::from(*s))),
+        Q::AllSubtypes(s) => format!("{} / direct={} / has={}", names(&ns.all_subtypes_of(&Symbol::from(*s))), ns.subtypes_of(&Symbol::from(*s)).len(), ns.has_subtype(&Symbol::from(*s))),
+        Q::FitsWrappers(s) => {
+            let y = Symbol::from(*s);
+            format!("{}{}{}{}", ns.fits_marker(&y), ns.fits_val(&y), ns.fits_choice(&y), ns.fits_entity(&y))
+        }
         Q::HasRel(term, target) => {
             let r = |id: &str| V::Ref(id.into(), None);
             let mk = |t: &[(&str, V)]| match to_lib(&V::Dict(mk_tags(t))) {
@@ -225,7 +255,7 @@ fn snap_key(s: &Snapshot) -> String {
 pub type Partition = BTreeMap<(usize, u64), usize>;
 
 fn key_names() -> Vec<&'static str> {
-    vec!["a", "b", "c", "d", "entity", "e2", "b-c", "relationship", "rel", "xRef", "association", "tagOn", "tags", "t1", "mand", "m2", "zz"]
+    vec!["a", "b", "c", "d", "entity", "e2", "b-c", "relationship", "rel", "xRef", "association", "tagOn", "tags", "t1", "mand", "m2", "zz", "is", "plant", "marker", "val", "choice", "pt", "eq"]
 }
 
 /// all keys of both maps in one shard each (`one`), or every key in its own shard
@@ -620,7 +650,7 @@ pub fn child(_tier: Tier, job: String, _start: u64, _end: u64, ctx: &mut ChildCt
 
 pub fn run(tier: Tier) -> i32 {
     let mut run = Run::new("C14", tier, "model_checking");
-    run.rule = "subject: the real Namespace code over the hook shim. C14-H (E3): breadth-first search from the cold namespace; transition = one of 30 concrete queries (supertypes_of, all_supertypes_of, inheritance, fits, reflect, Reflection::fits, def_of_dict, tags, implementation, has_relationship with cyclic refs) on a 16-def scenario namespace (diamond, conjunct, entity, transitive relationship, reciprocal association) rebuilt by replaying the history; state = cache snapshot; to closure; every answer = cold answer = graph answer; run on the genuine DashMap (isolated child, watchdog) and on the Shim (single scheduled thread, all keys in one shard, so a self-deadlock is seen): both transition graphs must be identical. C14-S (E4+E2): scenarios (a) 2 threads x 1 query, all 55 unordered pairs of a 10-query core, from the cold state and from warm states; (b) 2 threads x 2 queries; (c) 3 threads x 1 query, all 220 multisets; for the two extreme shard partitions (thorough: every partition of the touched supertypes keys); every schedule with <= b preemptions (scheduling points: every shard-lock acquisition, thread start/exit). Oracle per execution: no deadlock, no panic, every answer equals the answer given alone, every final cache entry occurs in the sequential closure. states = cache states of C14-H + scenario configurations, transitions = history steps + schedules executed".into();
+    run.rule = "subject: the real Namespace code over the hook shim. C14-H (E3): breadth-first search from the cold namespace; transition = one of 36 concrete queries (supertypes_of, all_supertypes_of, inheritance, fits and its four wrappers, reflect, Reflection::fits, def_of_dict, tags, is, tag_on, implementation, protos with flattened children, all_subtypes_of, has_relationship with cyclic refs) on an 18-def scenario namespace (diamond, conjunct, entity, transitive relationship, reciprocal association, children prototypes) rebuilt by replaying the history; state = cache snapshot; to closure; every answer = cold answer = graph answer; run on the genuine DashMap (isolated child, watchdog) and on the Shim (single scheduled thread, all keys in one shard, so a self-deadlock is seen): both transition graphs must be identical. C14-S (E4+E2): scenarios (a) 2 threads x 1 query, all 55 unordered pairs of a 10-query core, from the cold state and from warm states; (b) 2 threads x 2 queries; (c) 3 threads x 1 query, all 220 multisets; for the two extreme shard partitions (thorough: every partition of the touched supertypes keys); every schedule with <= b preemptions (scheduling points: every shard-lock acquisition, thread start/exit). Oracle per execution: no deadlock, no panic, every answer equals the answer given alone, every final cache entry occurs in the sequential closure. states = cache states of C14-H + scenario configurations, transitions = history steps + schedules executed".into();
     run.assume("DashMap's own lock is trusted; the Shim models it as a reader-preferring RW lock per shard (shared granted unless a writer holds; exclusive needs the shard free) — read from dashmap-6.1.0/src/lock.rs — and is bound to the genuine DashMap by the identical C14-H transition graphs");
     run.assume("scheduling points at lock acquisitions suffice: all shared data is reached only under those locks");
     run.assume("2 and 3 threads explored exhaustively within the preemption bound; 4-16 threads are out of reach of exhaustive exploration");
@@ -637,6 +667,10 @@ pub fn run(tier: Tier) -> i32 {
         }
     };
 
+    // vacuity: the prototype query really flattens tags of the parent into the children
+    let qi = queries().iter().position(|q| matches!(q, Q::Protos(t) if t.len() == 3)).unwrap();
+    run.note("cold_answer_protos", json!(cold[qi]));
+    run.require(cold[qi].contains("\"pt\"") && cold[qi].contains("\"d\""), "protos query does not produce flattened prototypes");
     // ---- C14-H on the Shim (in process), and on the genuine DashMap (isolated child)
     let hs = explore_histories(hooks::Mode::Shim, &cold, &r, 100_000);
     run.stats.states += hs.states.len() as u64;
